@@ -42,6 +42,7 @@ def validate(tier, cfg_dir):
 
 
 KNOWN = {
+    "callable-kwonly-arity": Job("known-callable-kwonly-arity", M, "h_enforce", dict(C02_LEVEL=0), shards=4, timeout=600, env=WR),
     "asg-none-allowed": Job("known-asg-none-allowed", M, "h_enforce", dict(C02_LEVEL=0), shards=4, timeout=600, env=WR),
     "none-as-bool": Job("known-none-as-bool", M, "h_enforce", dict(C02_LEVEL=0), shards=4, timeout=600, env=WR),
     "arg-any-view": Job("known-arg-any-view", M, "h_enforce", dict(C02_LEVEL=0), shards=4, timeout=600, env=WR),
@@ -72,7 +73,7 @@ def meta(tier):
           "pytype/errors/errors.py: bad_return_type, annotation_type_mismatch",
           "pytype/abstract/abstract_utils.py: get_views; typegraph queries (CanHaveCombination/HasCombination) run "
           "in the compiled extension on concrete graphs"],
-      "bounds": {j.name: dict(j.params, annotations="see harness/c02.py _grammar", values=(49 if tier == "quick" else 64)) for j in jobs(tier)},
+      "bounds": {j.name: dict(j.params, annotations="see harness/c02.py _grammar", values=(51 if tier == "quick" else 66)) for j in jobs(tier)},
       "outside": [
           "how the VM turns source into annotation/value objects beyond the one set-up run (annotation_utils, "
           "vm.py byte_* run untraced at set-up)",
